@@ -100,6 +100,7 @@ def check_c03(tier):
     # instances of tens of MiB (thresholds in buffering / chunking code): Trace_Huge
     from huge_checks import huge
     huge(rep, "C03", "bundle")
+    huge(rep, "C03", "variants")
     return rep.finish()
 
 
